@@ -111,6 +111,18 @@ def render_thread(holder, mode, kind):
         body = "  let r = &%s;\n  std::thread::scope(|s| { s.spawn(move || { let _o = r; }); });\n" % obj
     return pre + init + body + "}\n"
 
+TUPLE_PROGS = [
+    # each half of split_at_spare_mut() is tied to the borrow of the vector
+    ("spare-half0-outlives-mutation", False, "use minivec::{MiniVec, mini_vec};\npub fn f() { let mut v: MiniVec<i32> = mini_vec![1]; v.reserve(4); let (a, _b) = v.split_at_spare_mut(); v.push(2); a[0] = 3; }\n"),
+    ("spare-half1-outlives-mutation", False, "use minivec::{MiniVec, mini_vec};\nuse core::mem::MaybeUninit;\npub fn f() { let mut v: MiniVec<i32> = mini_vec![1]; v.reserve(4); let (_a, b) = v.split_at_spare_mut(); v.push(2); b[0] = MaybeUninit::new(3); }\n"),
+    ("spare-half1-outlives-vec", False, "use minivec::{MiniVec, mini_vec};\nuse core::mem::MaybeUninit;\npub fn f() { let b; { let mut v: MiniVec<i32> = mini_vec![1]; v.reserve(4); b = v.split_at_spare_mut().1; } b[0] = MaybeUninit::new(3); }\n"),
+    ("spare-halves-ok", True, "use minivec::{MiniVec, mini_vec};\nuse core::mem::MaybeUninit;\npub fn f() { let mut v: MiniVec<i32> = mini_vec![1]; v.reserve(4); let (a, b) = v.split_at_spare_mut(); a[0] = 3; b[0] = MaybeUninit::new(3); unsafe { v.set_len(2) }; v.push(2); }\n"),
+    ("spare-capacity-outlives-mutation", False, "use minivec::{MiniVec, mini_vec};\nuse core::mem::MaybeUninit;\npub fn f() { let mut v: MiniVec<i32> = mini_vec![1]; v.reserve(4); let b = v.spare_capacity_mut(); v.push(2); b[0] = MaybeUninit::new(3); }\n"),
+    ("splice-outlives-use", False, "use minivec::{MiniVec, mini_vec};\npub fn f() { let mut v: MiniVec<i32> = mini_vec![1, 2]; let s = v.splice(.., [9]); let _ = v.len(); drop(s); }\n"),
+    ("drain-filter-outlives-use", False, "use minivec::{MiniVec, mini_vec};\npub fn f() { let mut v: MiniVec<i32> = mini_vec![1, 2]; let s = v.drain_filter(|x| *x > 1); v.push(3); drop(s); }\n"),
+    ("drain-outlives-vec", False, "use minivec::{MiniVec, mini_vec};\npub fn f() { let d; { let mut v: MiniVec<i32> = mini_vec![1, 2]; d = v.drain(..); } drop(d); }\n"),
+]
+
 LIFETIME_PROGS = [
     ("leak-lengthen", False, "use minivec::{MiniVec, mini_vec};\npub fn f() { let x = 5; let s: &'static mut [&i32] = MiniVec::leak(mini_vec![&x]); let _ = s.len(); }\n"),
     ("leak-short-ok", True, "use minivec::{MiniVec, mini_vec};\npub fn f() { let x = 5; let s: &mut [&i32] = MiniVec::leak(mini_vec![&x]); let _ = s.len(); }\n"),
@@ -170,11 +182,21 @@ def c16(tier, seed):
                 prog.append(("endvec",)); ended = True; break
         progs.append(("plain", prog))
     threads = [(h, m, k) for h in ("vec", "intoIter", "drain") for m in ("send", "share") for k in ("plain", "rc", "cell")]
-    verdicts, rc, err = lean_verdicts(progs + [(k, [(m, h)]) for (h, m, k) in threads])
+    allp = progs + [(k, [(m, h)]) for (h, m, k) in threads]
+    verdicts, rc, err = lean_verdicts(allp)
     viol = []
-    if rc != 0 or len(verdicts) != len(progs) + len(threads):
-        viol.append({"signature": "c16-lean-run", "concrete": False, "payload": {"what": "the Lean stand-in judgement did not run", "stderr": err}})
-        verdicts = ["?"] * (len(progs) + len(threads))
+    pin_path = VERIF + "/vlib/c16_pinned.json"
+    key = lambda kp: kp[0] + " | " + " ; ".join(" ".join(st) for st in kp[1])
+    if os.environ.get("C16_PIN") == "1" and rc == 0 and len(verdicts) == len(allp):
+        json.dump({key(kp): v for kp, v in zip(allp, verdicts)}, open(pin_path, "w"), indent=0, sort_keys=True)
+    if rc != 0 or len(verdicts) != len(allp):
+        # the stand-in judgement does not build (its facts changed): fall back, for the search of a failing
+        # input, on the verdicts it gave on the pinned tree for the fixed corpus
+        try:
+            pinned = json.load(open(pin_path))
+        except Exception:
+            pinned = {}
+        verdicts = [pinned.get(key(kp), "?") for kp in allp]
     jobs = []
     for i, (kind, prog) in enumerate(progs):
         path = "%s/p%d.rs" % (d, i)
@@ -184,7 +206,7 @@ def c16(tier, seed):
         path = "%s/t%d.rs" % (d, j)
         open(path, "w").write(render_thread(h, m, k))
         jobs.append((path, verdicts[len(progs) + j], "%s %s %s" % (m, h, k)))
-    for name, must_compile, src in LIFETIME_PROGS:
+    for name, must_compile, src in LIFETIME_PROGS + TUPLE_PROGS:
         path = "%s/l-%s.rs" % (d, name)
         open(path, "w").write(src)
         jobs.append((path, "accept" if must_compile else "reject", name))
@@ -245,13 +267,25 @@ fn check_pair<T: Clone + PartialOrd + std::fmt::Debug>(a: &[T], b: &[T], n: &mut
     if (va == *b) != (a == b) || (va == b) != (a == b) || (b == va) != (b == a) { bad.push(format!("mixed == slice {:?} {:?}", a, b)); }
     if (va == b.to_vec()) != (a == b) { bad.push(format!("mixed == Vec {:?} {:?}", a, b)); }
     if format!("{:?}", va) != format!("{:?}", a) { bad.push(format!("debug {:?}", a)); }
-  } }
+    if format!("{:#?}", va) != format!("{:#?}", a) || format!("{:.1?}", va) != format!("{:.1?}", a) || format!("{:+?}", va) != format!("{:+?}", a)
+       || format!("{:8?}", va) != format!("{:8?}", a) { bad.push(format!("debug-options {:?}", a)); }
+    if format!("{:#?}", (1, &va)) != format!("{:#?}", (1, a)) { bad.push(format!("debug-nested {:?}", a)); }
+  }
+    // aliased operands: a vector against itself and against a slice borrowed from itself
+    #[allow(clippy::eq_op)]
+    { if (va == va) != (a == a) || (va != va) != (a != a) { bad.push(format!("self == {:?}", a)); }
+      let sl: &[T] = &va[..];
+      if (va == sl) != (a == a) || (sl == va) != (a == a) || (va == *sl) != (a == a) { bad.push(format!("self-slice == {:?}", a)); }
+      if va.partial_cmp(&va) != a.partial_cmp(a) { bad.push(format!("self partial_cmp {:?}", a)); } }
+  }
 }
 fn check_ord<T: Clone + Ord + Hash + std::fmt::Debug>(a: &[T], b: &[T], n: &mut u64, bad: &mut Vec<String>) {
   for va in variants(a) { for vb in variants(b) {
     *n += 1;
     if va.cmp(&vb) != a.cmp(b) { bad.push(format!("cmp {:?} {:?}", a, b)); }
     if h(&va) != h(a) || h(&vb) != h(b) { bad.push(format!("hash {:?} {:?}", a, b)); }
+    if h(&(3u8, &va, 4u8)) != h(&(3u8, a, 4u8)) { bad.push(format!("nested hash {:?}", a)); }
+    if format!("{:x?}", va) != format!("{:x?}", a) || format!("{:#06X?}", va) != format!("{:#06X?}", a) { bad.push(format!("debug-hex {:?}", a)); }
     let mut m: HashMap<MiniVec<T>, u32> = HashMap::new(); m.insert(va.clone(), 1);
     if m.get(a) != Some(&1) || (m.get(b).is_some() != (a == b)) { bad.push(format!("HashMap lookup by slice {:?} {:?}", a, b)); }
     let mut t: BTreeMap<MiniVec<T>, u32> = BTreeMap::new(); t.insert(va.clone(), 1);
